@@ -206,6 +206,28 @@ def muxStep (v : Verifier) (reqId : Nat) (buf : Bytes) (rdok parseOK : Bool) :
     | .err => .ok (v, .err)
     | .panic m => .panic m
 
+/-- `UdpRequest::send` after the datagram was sent, for a request carrying a verifier: up to three
+received datagrams (all from the name server's address; the source check is C16's) are examined.
+A datagram that does not decode as a response ends the attempt with an error
+(`DnsResponse::from_buffer(..)?`); one with another id or with a question that is not among the
+request's is skipped; the first one that gets through is handed to `TSigVerifier::verify` and its
+verdict IS the result — no header bit (TC, AA, RA, rcode …) short-cuts the verification.  When the
+socket has nothing more (scripted: an I/O error) or three datagrams were skipped: error.
+`qok` = "every question of the response is among the request's questions". -/
+def udpRecv (v : Verifier) (reqId : Nat) :
+    Nat → List (Bytes × Bool × Bool × Bool) → Outcome (Option Verifier)
+  | 0, _ => .ok none                                 -- "udp receive attempts exceeded"
+  | _, [] => .ok none                                -- recv_from error
+  | k + 1, (buf, rdok, parseOK, qok) :: rest =>
+    if parseOK = false then .ok none
+    else if rd16 buf 0 ≠ some reqId then udpRecv v reqId k rest
+    else if qok = false then udpRecv v reqId k rest
+    else
+      match v.verify buf rdok parseOK with
+      | .ok v' => .ok (some v')
+      | .err => .ok none
+      | .panic m => .panic m
+
 /-- a history of received messages on one request id -/
 def muxRun (v : Verifier) (reqId : Nat) :
     List (Bytes × Bool × Bool) → Outcome (Verifier × List Delivery)
@@ -306,6 +328,10 @@ structure ZoneCfg where
   allowUpdate : Bool
   axfr : AxfrPolicy
   signers : List Signer
+  /-- the zone is served by `InMemoryZoneHandler` / `FileZoneHandler` instead of
+  `SqliteZoneHandler`: no TSIG processing at all — `zone_transfer` admits an AXFR iff its policy is
+  `AllowAll`, `update` is the trait default (`NotImp`) -/
+  inMemory : Bool := false
 
 /-- result of an authorisation: `rcode = 0` is `Ok(())` -/
 structure Auth where
@@ -314,6 +340,7 @@ structure Auth where
 
 def Auth.ok (a : Auth) : Bool := a.rcode == 0
 
+def NOTIMP : Nat := 4
 def REFUSED : Nat := 5
 def NOTAUTH : Nat := 9
 def BADSIG : Nat := 16
@@ -338,6 +365,7 @@ def authorizedTsig (cfg : ZoneCfg) (tsig : SigRec) (buf : Bytes) (now : Nat) (rd
 /-- `SqliteZoneHandler::authorize_update(request, now)` -/
 def authorizeUpdate (cfg : ZoneCfg) (req : Req) (buf : Bytes) (now : Nat) (rdok : Bool) :
     Outcome Auth :=
+  if cfg.inMemory then .ok { rcode := NOTIMP, resp := none } else
   if cfg.allowUpdate = false then .ok { rcode := REFUSED, resp := none } else
   match req.sig with
   | some tsig => authorizedTsig cfg tsig buf now rdok
@@ -346,6 +374,9 @@ def authorizeUpdate (cfg : ZoneCfg) (req : Req) (buf : Bytes) (now : Nat) (rdok 
 /-- `SqliteZoneHandler::authorize_axfr(request, now)` -/
 def authorizeAxfr (cfg : ZoneCfg) (req : Req) (buf : Bytes) (now : Nat) (rdok : Bool) :
     Outcome Auth :=
+  if cfg.inMemory then
+    (if cfg.axfr = .allowAll then .ok { rcode := 0, resp := none }
+     else .ok { rcode := REFUSED, resp := none }) else
   match cfg.axfr with
   | .deny => .ok { rcode := REFUSED, resp := none }
   | .allowAll => .ok { rcode := 0, resp := none }
